@@ -253,6 +253,12 @@ def b_dict(I, args, kw):
         src = args[0]
         if isinstance(src, dict):
             d.update(src)
+        elif isinstance(src, Obj) and src.cls.name in I.world.abstract and I.world.abstract[src.cls.name].get('mapping_keys') is not None:
+            # CPython: an argument with a keys() method is read through the mapping protocol: {k: src[k] for k in src.keys()}
+            for k in I.world.abstract[src.cls.name]['mapping_keys'](I, src):
+                I.dict_set(d, k, I.index(src, k))
+        elif isinstance(src, Obj):
+            raise Unsupported('dict(<%s object>): mapping protocol of this class is not modelled' % src.cls.name)
         else:
             for kv in I.iterate(src):
                 k, v = list(I.iterate(kv))
